@@ -7,10 +7,16 @@
      very value the call was given, and that step has written nothing to the ring (claim log, head counter, cells and
      tags unchanged); it is one of the five steps that can refuse (full test on the cached tail, full test after the
      scan on either path, reference-count test on either path), all of which come before the claiming step.
+   - C15_none_is_stable: with no sender handle alive a registered stream whose cursor equals the head counter keeps
+     cursor = head, head and the claim log across every step of any agent (nothing is claimed any more, a drained
+     stream stays drained); with Props/C07.v (the end is reported only on a drained stream without senders, and a
+     receive attempt on such a stream reports the end within four own steps) the Stream's None comes only at the
+     end of the stream and is returned by every later poll as well.
    The equality of results with the plain handles is established by the correspondence and the oracles (the futures
    calls run the same attempt code: same program counters of the model, same source functions). *)
 From Coq Require Import NArith List Bool.
-Require Import MQ.Arith64 MQ.Types MQ.State MQ.Model MQ.Exec MQ.Reach MQ.Ctl MQ.CtlFacts MQ.FullStep.
+Require Import MQ.Arith64 MQ.Arith64Facts MQ.Types MQ.State MQ.Model MQ.Exec MQ.Reach MQ.Ctl MQ.CtlFacts MQ.FullStep
+  MQ.RecvDefs MQ.InvReg MQ.WinDefs MQ.EndStable.
 Import ListNotations.
 Open Scope N_scope.
 
@@ -47,3 +53,21 @@ Example C15_refused_witness :
   let s := reach_by c true (Start 0 (CStartSend 5) :: repeat (Step 0) 9 ++ Start 0 (CStartSend 6) :: repeat (Step 0) 8) in
   exists A, get (ags s) 0 = Some A /\ g_log (sh s) = [0] /\ is_full (r_res (a_r A)) = true /\ r_res (a_r A) = RFull (r_v (a_r A)).
 Proof. vm_compute. eexists. repeat split. Qed.
+
+(* ---- None is stable ---- *)
+Theorem C15_none_is_stable : forall c fut s x X o sg,
+  0 < c_n c -> c_n c <= B61 -> mreachN c fut s ->
+  lenN (ags (apply1 s x o)) < B62 -> lenN (g_log (sh s)) < B62 ->
+  get (ags s) x = Some X -> (is_local (a_pc X) = true \/ enabled x X (sh s) = true) ->
+  micro c x X (sh s) = Some o -> new_ok s x o = true -> ~ f11_bad (sh s) X ->
+  writers (sh s) = 0 -> gpos (sh s) sg = head (sh s) -> In sg (streams (o_s o)) ->
+  writers (o_s o) = 0 /\ head (o_s o) = head (sh s) /\ g_log (o_s o) = g_log (sh s) /\ gpos (o_s o) sg = head (o_s o).
+Proof. exact end_state_stable. Qed.
+Check C15_none_is_stable : forall c fut s x X o sg,
+  0 < c_n c -> c_n c <= B61 -> mreachN c fut s ->
+  lenN (ags (apply1 s x o)) < B62 -> lenN (g_log (sh s)) < B62 ->
+  get (ags s) x = Some X -> (is_local (a_pc X) = true \/ enabled x X (sh s) = true) ->
+  micro c x X (sh s) = Some o -> new_ok s x o = true -> ~ f11_bad (sh s) X ->
+  writers (sh s) = 0 -> gpos (sh s) sg = head (sh s) -> In sg (streams (o_s o)) ->
+  writers (o_s o) = 0 /\ head (o_s o) = head (sh s) /\ g_log (o_s o) = g_log (sh s) /\ gpos (o_s o) sg = head (o_s o).
+Print Assumptions C15_none_is_stable.
